@@ -258,6 +258,36 @@ def run(spec, R):
                                     mech='midstream:%s:%s_arrives_as_%s' % ('generator' if meth == 'stream' else 'iterator_object', how, (f[0] or '').split('.')[0]))
                     else:
                         R.nontrivial(kind, 'midstream', meth, fail_after, how)
+    # ---- the method prepares its answer itself (ctx.out_string / ctx.out_document) and then fails: the client gets the fault, not what was prepared
+    if wsgi is not None and kind in ('soap11', 'xml', 'json', 'yaml', 'msgpack', 'httprpc-json'):
+        from spyne.server.wsgi import WsgiApplication
+        for what in ('string', 'document'):
+            for how, expect in (('fault', ('Client.Prepared', 'failed after preparing')), ('exc', ('Server', 'Internal Error'))):
+                for chunked in (True, False):
+                    req = M.encode_request(kind, 'prepared', [('what', what), ('how', how)])
+                    env, inp = drive.make_environ(req['method'], req['path'], req['qs'], req['body'], req['content_type'])
+                    rec.reset()
+                    w = drive.call_wsgi(WsgiApplication(app, chunked=chunked), env, inp)
+                    R.evaluations += 1
+                    R.count('prepared_answers')
+                    case = {'seed': spec['seed'], 'kind': kind, 'what': 'prepared', 'prepared': what, 'how': how, 'chunked': chunked}
+                    if w.exc is not None:
+                        R.violation('exception escaped the WSGI callable: %r' % w.exc, case, mech='escape:%s:%s' % (type(w.exc).__name__, drive.innermost_spyne_frame(w.exc)))
+                        continue
+                    if b'PREPARED' in w.body:
+                        R.violation('a method that prepared its answer (ctx.out_%s) and then raised %s: the client got what was prepared under status %s: %r' % (
+                                    what, 'a Fault' if how == 'fault' else 'a RuntimeError', w.status, w.body[:80]), case, mech='prepared_answer_sent_with_fault:%s' % what)
+                        continue
+                    f = decode_fault_any(kind, w.body)
+                    if f is None:
+                        R.violation('answer of a failed call that had prepared its answer is not a fault document: %r' % w.body[:200], case, mech='prepared:not_a_fault_document:%s' % kind)
+                        continue
+                    if b'secret-prepared' in w.body:
+                        R.violation('the text of a non-Fault exception appears in the response', case, mech='leak:message')
+                    if (f[0], f[1]) != expect:
+                        R.violation('%r raised after preparing the answer arrived as %r' % (expect, (f[0], f[1])), case, mech='prepared:fault_differs')
+                    else:
+                        R.nontrivial(kind, 'prepared', what, how, chunked)
     # ---- the method picks the protocol of its own answer, then fails: code, message and status are those of the protocol that writes the answer
     for fmt in ('json', 'xml', 'yaml', 'soap11'):
         for how, ecode, dedicated in (('fault', 'Client.Negotiated', None), ('server_fault', 'Server.Negotiated', None), ('notfound', 'Client.ResourceNotFound', 404)):
